@@ -121,8 +121,8 @@ def reactant(draw, max_atoms=4):
 
 
 @st.composite
-def rule(draw, balanced='maybe'):
-    frag = draw(reactant())
+def rule(draw, balanced='maybe', frag=None):
+    frag = frag if frag is not None else draw(reactant())
     n = len(frag['atoms'])
     bonds = [(i, j, k) for i, j, k in ringast.all_bonds(frag)]
     nonbonded = [(a, b) for a in range(n) for b in range(a) if bond_between(frag, a, b) is None]
